@@ -832,6 +832,186 @@ def long_smoke_stage(ctx):
                           {"case": case, "error": why, "finding_key": "long-sequence-run-fails"})
 
 
+# ------------------------------------------------------------------------------------------
+# shape/type contract of the values handed to pulser + multi-trajectory runs with dark atoms
+# ------------------------------------------------------------------------------------------
+def value_sig(v):
+    """type / dtype / shape signature of a stored observable value."""
+    import numpy as np
+    import torch
+    from collections import Counter
+
+    if isinstance(v, torch.Tensor):
+        return f"torch.Tensor[{v.dtype}]{tuple(v.shape)}"
+    if isinstance(v, np.ndarray):
+        return f"np.ndarray[{v.dtype}]{tuple(v.shape)}"
+    if isinstance(v, Counter):
+        return "Counter"
+    if isinstance(v, dict):
+        return "dict{" + ",".join(sorted(map(str, v))) + "}"
+    if isinstance(v, (list, tuple)):
+        return f"{type(v).__name__}[{len(v)}]"
+    return type(v).__name__
+
+
+class AggregateHook:
+    """Record the per-trajectory Results handed to pulser's Results.aggregate (rebinding of the classmethod in
+    the running interpreter, restored on exit)."""
+
+    def __enter__(self):
+        import pulser.backend.results as PR
+
+        self.PR = PR
+        self.orig = PR.Results.__dict__["aggregate"]
+        self.batches = []
+        orig_fn = self.orig.__func__
+        hook = self
+
+        def wrapped(cls, results_to_aggregate, **kw):
+            hook.batches.append(list(results_to_aggregate))
+            return orig_fn(cls, results_to_aggregate, **kw)
+
+        PR.Results.aggregate = classmethod(wrapped)
+        return self
+
+    def __exit__(self, *a):
+        self.PR.Results.aggregate = self.orig
+
+    def shape_violations(self):
+        out = []
+        for batch in self.batches:
+            sigs = {}
+            for k, res in enumerate(batch):
+                for tag in res.get_result_tags():
+                    for t in res.get_result_times(tag):
+                        sigs.setdefault(tag, {}).setdefault(value_sig(res.get_result(tag, t)), (k, t))
+            for tag, d in sigs.items():
+                if len(d) > 1:
+                    out.append(f"`{tag}`: " + "; ".join(f"{sg} (trajectory {k}, t={t})" for sg, (k, t) in d.items()))
+        return out
+
+
+F13_MARKERS = ("For 1 qubit states", "emu_mps is designed for more than 2 qubits")
+
+
+def traj_case(case):
+    """state_prep_error on interacting atoms, several trajectories: run, then check the per-trajectory values."""
+    import math
+    import warnings
+    import numpy as np
+    import pulser
+    from pulser.backend.observable import Observable
+    import emu_mps
+    import emu_sv
+
+    out, skipped = [], None
+    n = case["n_atoms"]
+    pkg = emu_mps if case["backend"] == "emu_mps" else emu_sv
+    with warnings.catch_warnings():
+        warnings.simplefilter("ignore")
+        reg = pulser.Register.rectangle(1, n, spacing=7.0, prefix="q")
+        seq = pulser.Sequence(reg, pulser.MockDevice)
+        seq.declare_channel("ryd", "rydberg_global")
+        seq.add(pulser.Pulse.ConstantPulse(200, 2 * math.pi, 1.0, 0.0), "ryd")
+        ev = [0.0, 0.5, 1.0]
+        obs = []
+        for name in sorted(getattr(pkg, "__all__", dir(pkg))):
+            cls = getattr(pkg, name, None)
+            if not (inspect.isclass(cls) and issubclass(cls, Observable) and cls is not Observable):
+                continue
+            if name == "Expectation":
+                Op = pkg.MPO if pkg is emu_mps else pkg.DenseOperator
+                obs.append(cls(Op.from_operator_repr(eigenstates=("r", "g"), n_qudits=n,
+                                                     operations=[(1.0, [({"rr": 1.0}, [0])])]), evaluation_times=ev))
+            elif name == "Fidelity":
+                St = pkg.MPS if pkg is emu_mps else pkg.StateVector
+                obs.append(cls(St.from_state_amplitudes(eigenstates=("r", "g"), amplitudes={"g" * n: 1.0}),
+                               evaluation_times=ev))
+            elif name == "EntanglementEntropy":
+                obs += [cls(b, evaluation_times=ev, tag_suffix=f"cut{b}") for b in sorted({0, n - 2})]
+            elif name == "StateResult":
+                obs.append(cls(evaluation_times=[1.0]))
+            else:
+                obs.append(cls(evaluation_times=ev))
+        kw = dict(observables=obs, log_level=logging.CRITICAL, n_trajectories=case["n_traj"],
+                  noise_model=pulser.NoiseModel(state_prep_error=case["p"]))
+        np.random.seed(case["np_seed"])
+        with AggregateHook() as hook:
+            try:
+                if pkg is emu_mps:
+                    r = pkg.MPSBackend(seq, config=pkg.MPSConfig(optimize_qubit_ordering=False, **kw)).run()
+                else:
+                    r = pkg.SVBackend(seq, config=pkg.SVConfig(**kw)).run()
+                tags = set(r.get_result_tags())
+                missing = [o.tag for o in obs if o.tag not in tags
+                           and not o.default_aggregation_method.name.startswith("SKIP")]
+                if missing:
+                    out.append(("observable-dropped-from-aggregate", f"missing from the aggregated results: {missing}"))
+            except Exception as ex:
+                if any(m in str(ex) for m in F13_MARKERS):
+                    skipped = "fewer than 2 well-prepared atoms in a trajectory (known finding F-13, not C31)"
+                else:
+                    out.append(("multi-trajectory-run-fails", f"{type(ex).__name__}: {str(ex)[:220]}"))
+        for v in hook.shape_violations():
+            out.append(("observable-value-shape-varies", v))
+    c33._restore_logging()
+    return out, skipped
+
+
+def entropy_shape_contract():
+    """EntanglementEntropy value at every cut of product and entangled MPS: one type/dtype/shape."""
+    import warnings
+    import math
+    from emu_mps import MPS
+
+    sigs = {}
+    with warnings.catch_warnings():
+        warnings.simplefilter("ignore")
+        for n in (2, 3, 4):
+            a = 1 / math.sqrt(2)
+            states = {
+                "product(make)": MPS.make(n),
+                "product(amplitudes)": MPS.from_state_amplitudes(eigenstates=("r", "g"), amplitudes={"r" + "g" * (n - 1): 1.0}),
+                "ghz": MPS.from_state_amplitudes(eigenstates=("r", "g"), amplitudes={"r" * n: a, "g" * n: a}),
+                "half-product": MPS.from_state_amplitudes(eigenstates=("r", "g"),
+                                                          amplitudes={"rr" + "g" * (n - 2): a, "gg" + "g" * (n - 2): a}),
+            }
+            for name, st in states.items():
+                for b in range(n - 1):
+                    v = st.entanglement_entropy(b)
+                    sigs.setdefault(value_sig(v), f"{name}, {n} atoms, cut {b} (bond dimension "
+                                                  f"{st.factors[b].shape[2]})")
+    return sigs
+
+
+def traj_stage(ctx):
+    sigs = entropy_shape_contract()
+    ctx.count_case({"kind": "entropy-shape-contract"}, True)
+    if len(sigs) > 1:
+        ctx.violation("MPS.entanglement_entropy returns values of different type/shape: "
+                      + "; ".join(f"{k} for {v}" for k, v in sigs.items())
+                      + " (pulser's MEAN aggregation stacks the values of all trajectories)",
+                      {"case": {"kind": "entropy-shape-contract"}, "signatures": sigs,
+                       "finding_key": "observable-value-shape-varies"})
+    seeds = [3, 11] + [ctx.rng.randrange(1000) for _ in range(ctx.n(1, 6))]
+    cases = [c for c in corpus_cases() if c.get("kind") == "traj-smoke"]
+    for sd in seeds:
+        for be, n in (("emu_mps", 4), ("emu_sv", 4), ("emu_mps", 3)):
+            if be == "emu_mps" and n == 3 and not ctx.thorough() and sd not in (3, 11):
+                continue
+            cases.append({"kind": "traj-smoke", "backend": be, "n_atoms": n, "n_traj": 8, "p": 0.15, "np_seed": sd})
+    skipped = 0
+    for case in cases:
+        bad, skip = traj_case(case)
+        ctx.count_case(case, True)
+        skipped += bool(skip)
+        for key, why in bad:
+            ctx.violation(f"under pulser-core {importlib.metadata.version(DIST)}: {case['backend']}, {case['n_atoms']} atoms, "
+                          f"state_prep_error={case['p']}, {case['n_traj']} trajectories, numpy seed {case['np_seed']}: {why}",
+                          {"case": case, "error": why, "finding_key": key})
+    ctx.extra["trajectory_runs"] = {"cases": len(cases), "skipped_F13_fewer_than_2_good_atoms": skipped}
+
+
 def corpus_cases():
     p = common.VERIF / "corpus" / "C31.json"
     return json.loads(p.read_text()) if p.exists() else []
@@ -894,6 +1074,7 @@ def run(ctx):
     # internal observables of the backends obey the installed pulser's validators; long sequences run
     contract_stage(ctx)
     long_smoke_stage(ctx)
+    traj_stage(ctx)
     # compat shims must be pure; order- and trajectory-aware smoke runs in fresh processes
     compat_stage(ctx)
     from concurrent.futures import ThreadPoolExecutor
@@ -978,6 +1159,19 @@ def replay(ctx, path):
             print(f"FAIL {pkg} {what}: {why}")
             ctx.violation(f"internal {what} of {pkg} rejected by pulser: {why}",
                           {"case": case, "error": why, "finding_key": "internal-observable-rejected-by-pulser"})
+        return
+    if case.get("kind") == "traj-smoke":
+        bad, skip = traj_case(case)
+        print("skipped:" if skip else "ran:", skip or "", bad)
+        for key, why in bad:
+            ctx.violation(why, {"case": case, "error": why, "finding_key": key})
+        return
+    if case.get("kind") == "entropy-shape-contract":
+        sigs = entropy_shape_contract()
+        print(sigs)
+        if len(sigs) > 1:
+            ctx.violation("MPS.entanglement_entropy returns values of different type/shape: " + str(sigs),
+                          {"case": case, "signatures": sigs, "finding_key": "observable-value-shape-varies"})
         return
     if case.get("kind") == "slm-smoke":
         for what, why in slm_smoke_case(case):
